@@ -109,6 +109,13 @@ theorem runActs_wf (acts : List Act) (x : Ctx) {s : S} (h : s.WF) : (runActs s x
         apply ih
         exact wf_setTempo hb i _ v hv
       · exact ih (s := (s.bumpPc x.rid).emit _) hb
+    | setBeats i b =>
+      apply ih
+      intro j
+      show (if j = i then ((s.bumpPc x.rid).tempi i).setBeats _ b else (s.bumpPc x.rid).tempi j).WF
+      split
+      · exact ⟨(hb i).pos, div_mul_cancel₀ 1 (ne_of_gt (hb i).pos)⟩
+      · exact hb j
     | pause r =>
       simp only
       repeat' split
@@ -252,6 +259,12 @@ theorem runActs_sysOnly (acts : List Act) (x : Ctx) (hx : x.clk = .sys) {s : S} 
         obtain ⟨e0, h0, h1, _, _⟩ := mem_retime he
         rw [h1]; exact hb.pend e0 h0
       · exact ih' (hb.of_same rfl (fun _ => ⟨rfl, rfl⟩))
+    | setBeats i b =>
+      apply ih'
+      refine ⟨?_, hb.clock, hb.script⟩
+      intro e he
+      obtain ⟨e0, h0, h1, _, _⟩ := mem_retime he
+      rw [h1]; exact hb.pend e0 h0
     | pause r =>
       simp only
       repeat' split
@@ -393,6 +406,7 @@ theorem runActs_drawInv (acts : List Act) (x : Ctx) {s : S} (h : DrawInv s) : Dr
       simp only; split
       · exact ih (hb.of_same rfl rfl)
       · exact ih (hb.emit _ (by intros; simp))
+    | setBeats i b => exact ih (hb.of_same rfl rfl)
     | pause r =>
       simp only
       repeat' split
